@@ -121,7 +121,13 @@ pub fn emit_twin_case<T: Sc>(
 fn base_case<T: Sc>(rng: &mut Rng, thorough: bool, idx: usize, flavour: Flavour, wkind: WKind) -> StateCase<T> {
     let mut c = random_state_case::<T>(rng, thorough, idx);
     c.flavour = flavour;
-    let s = if flavour.is_mrhs() { rng.range(1, if thorough { 6 } else { 4 }) } else { 1 };
+    let s = if !flavour.is_mrhs() {
+        1
+    } else if c.origin == "bigS" {
+        c.y.ncols() // size-threshold sub-stream: keep the many right-hand sides
+    } else {
+        rng.range(1, if thorough { 6 } else { 4 })
+    };
     c.y = random_data::<T>(rng, &c.recipe, s, idx % 10 < 2);
     c.w = random_weights(rng, wkind, c.recipe.n(), c.recipe.m()).map(|w| w.iter().map(|v| T::of(*v)).collect());
     c.wkind = wkind.name();
@@ -155,11 +161,73 @@ pub fn stream_wtwin(out: &mut Out, seed: u64, thorough: bool) {
     }
 }
 
+/// weight twins at the truncation threshold: a nearly collinear basis whose smallest singular value
+/// σ_min(W·Φ) lies a factor 3 above (or below) a user-chosen threshold ε, with weights of overall
+/// magnitude 1e2..1e3 (or 1e-2..1e-3).  The rank decision must be taken on W·Φ against ε itself –
+/// exactly as for the row-scaled unweighted twin – whatever the scale of the weights.
+fn threshold_wtwin_case<T: Sc>(rng: &mut Rng, i: usize) -> StateCase<T> {
+    let n = rng.range(8, 14);
+    let with_offset = rng.chance(0.5);
+    let mut fns = vec![
+        FnSpec { kind: Kind::Exp, params: vec![0] },
+        FnSpec { kind: Kind::Exp, params: vec![1] },
+    ];
+    if with_offset {
+        fns.push(FnSpec { kind: Kind::One, params: vec![] });
+    }
+    let recipe = Recipe {
+        names: NAMES[..2].iter().map(|s| s.to_string()).collect(),
+        fns,
+        x: (0..n).map(|k| 0.25 + 3.5 * (k as f64) / (n - 1) as f64).collect(),
+    };
+    let tau = (rng.uniform(1.0, 2.5) * 256.0).round() / 256.0;
+    let delta = if T::WIDTH == 32 { 1.0 / 64.0 } else { *rng.pick(&[1.0 / 1024.0, 1.0 / 128.0]) };
+    let init: Vec<T> = vec![T::of(tau), T::of(tau * (1.0 + delta))];
+    let scale = [100.0, 1000.0, 0.01, 0.001][i % 4];
+    let w: Vec<T> = (0..n).map(|_| T::of(scale * (rng.uniform(0.5, 1.0) * 256.0).round() / 256.0)).collect();
+    let fl = *rng.pick(&[Flavour::New, Flavour::Mrhs, Flavour::MrhsPar]);
+    let s = if fl.is_mrhs() { rng.range(1, 3) } else { 1 };
+    let y = random_data::<T>(rng, &recipe, s, false);
+    // smallest singular value of W·Φ(init), computed by the harness
+    let mut a = recipe.phi::<T>(&init);
+    for j in 0..a.ncols() {
+        for r in 0..n {
+            a[(r, j)] = a[(r, j)] * w[r];
+        }
+    }
+    let sv = a.svd(false, false).singular_values;
+    let smin = sv.iter().fold(f64::INFINITY, |m, v| m.min(v.f()));
+    // big weights: σ_min is kept by ε but would be dropped by ε·max|w|; small weights: the reverse
+    let eps = if scale > 1.0 { smin / 3.0 } else { smin * 3.0 };
+    let other: Vec<T> = random_alpha(rng, 2).iter().map(|v| T::of(*v)).collect();
+    let history = vec![init.clone(), other, init.clone()];
+    StateCase {
+        recipe,
+        built: i % 2 == 0,
+        flavour: fl,
+        y,
+        w: Some(w),
+        wkind: "scaled",
+        eps: Some(T::of(eps)),
+        init,
+        history,
+        origin: "wthreshold",
+    }
+}
+
 fn one_wtwin<T: Sc>(out: &mut Out, rng: &mut Rng, thorough: bool, i: usize) {
     let wk = [WKind::Positive, WKind::Zeros, WKind::Negatives, WKind::Wide, WKind::Ones, WKind::Constant][i % 6];
-    let fl = *rng.pick(&[Flavour::New, Flavour::Mrhs, Flavour::Mrhs, Flavour::MrhsPar]);
-    let mut c = base_case::<T>(rng, thorough, i, fl, wk);
-    c.origin = "wtwin";
+    let fl0 = *rng.pick(&[Flavour::New, Flavour::Mrhs, Flavour::Mrhs, Flavour::MrhsPar]);
+    let c = if i % 10 == 7 {
+        threshold_wtwin_case::<T>(rng, i / 10)
+    } else {
+        let mut c = base_case::<T>(rng, thorough, i, fl0, wk);
+        if c.origin == "random" {
+            c.origin = "wtwin";
+        }
+        c
+    };
+    let fl = c.flavour;
     let w = c.w.clone().unwrap();
     let n = c.recipe.n();
     let primary = match dynp(fl, wrap_any(any_model(&c.recipe, &c.init, c.built)), &c.y, Some(&w), c.eps) {
@@ -185,7 +253,7 @@ fn one_wtwin<T: Sc>(out: &mut Out, rng: &mut Rng, thorough: bool, i: usize) {
         }
     }
     // U: all weights one  <->  no weights
-    if wk == WKind::Ones {
+    if c.wkind == "ones" {
         if let Some(p) = dynp(fl, wrap_any(any_model(&c.recipe, &c.init, c.built)), &c.y, None, c.eps) {
             twins.push(Twin { prefix: "twinU".into(), prob: p });
         }
@@ -229,7 +297,9 @@ fn one_mrhs<T: Sc>(out: &mut Out, rng: &mut Rng, thorough: bool, i: usize) {
     let wk = WKINDS[i % WKINDS.len()];
     let fl = if i % 3 == 2 { Flavour::MrhsPar } else { Flavour::Mrhs };
     let mut c = base_case::<T>(rng, thorough, i, fl, wk);
-    c.origin = "mrhs";
+    if c.origin == "random" {
+        c.origin = "mrhs";
+    }
     let n = c.recipe.n();
     // duplicated / linearly dependent / single columns
     match i % 5 {
@@ -296,7 +366,9 @@ fn one_par<T: Sc>(out: &mut Out, rng: &mut Rng, thorough: bool, i: usize, thread
     let wk = WKINDS[i % WKINDS.len()];
     let fl = if i % 2 == 0 { Flavour::MrhsPar } else { Flavour::NewPar };
     let mut c = base_case::<T>(rng, thorough, i, fl, wk);
-    c.origin = "par";
+    if c.origin == "random" {
+        c.origin = "par";
+    }
     let w = c.w.clone();
     let primary = match dynp(fl, wrap_any(any_model(&c.recipe, &c.init, c.built)), &c.y, w.as_ref(), c.eps) {
         Some(p) => p,
